@@ -23,6 +23,34 @@ class Window(list):
         return True if bytes in Ts else None
 
 
+class TypedWindow:
+    """a window handed over as a typed buffer (array.array('h'), a typed memoryview): len() and slicing count ITEMS of
+    `itemsize` bytes, the buffer protocol exposes all the bytes"""
+    __sx_proxy__ = True
+
+    def __init__(self, bytes_, itemsize):
+        self.b = list(bytes_)
+        self.itemsize = itemsize
+
+    def __len__(self):
+        return len(self.b) // self.itemsize
+
+    def __sx_len__(self):
+        return len(self)
+
+    def __getitem__(self, i):
+        if isinstance(i, slice):
+            idx = range(len(self))[i]
+            out = []
+            for k in idx:
+                out += self.b[k * self.itemsize:(k + 1) * self.itemsize]
+            return TypedWindow(out, self.itemsize)
+        raise Unsupported("TypedWindow[int]")
+
+    def __bool__(self):
+        return len(self.b) > 0
+
+
 class Arr:
     __sx_proxy__ = True
 
@@ -161,6 +189,8 @@ class Shim:
         w = dt.itemsize
         signed = dt.kind == "i"
         little = dt.byteorder in ("<", "=", "|")
+        if isinstance(data, TypedWindow):
+            data = data.b
         if len(data) % w:
             raise ValueError("buffer size must be a multiple of element size")
         out = []
